@@ -119,6 +119,10 @@ type FOOp struct {
 	// UseShared: the Get runs under the scenario's shared request context (one TTL cell shared by
 	// several goroutines) instead of a context of its own.
 	UseShared bool `json:"use_shared,omitempty"`
+	// OwnCtx: the Get runs under a context that belongs to its client alone and is reused by all of that
+	// client's OwnCtx operations (a request context with one TTL cell, FOScenario.OwnCtxTTLNs): no second
+	// goroutine of the application ever sees it, only goroutines the library starts on behalf of the client do.
+	OwnCtx bool `json:"own_ctx,omitempty"`
 }
 
 // FOFaults is the backend fault plan (ordinals are 0-based positions among wrapper calls).
@@ -150,6 +154,8 @@ type FOScenario struct {
 	Faults   FOFaults `json:"faults,omitempty"`
 	// SharedCtxTTLNs != 0: a request context carrying this TTL is shared by all Gets with UseShared.
 	SharedCtxTTLNs int64 `json:"shared_ctx_ttl_ns,omitempty"`
+	// OwnCtxTTLNs != 0: TTL of the per-client request contexts (see FOOp.OwnCtx).
+	OwnCtxTTLNs int64 `json:"own_ctx_ttl_ns,omitempty"`
 	// DefaultBackend: the Failover creates its own backend from BackendConfig (no wrapper seam:
 	// backend calls are not observed, backend faults cannot be injected).
 	DefaultBackend bool     `json:"default_backend,omitempty"`
@@ -374,6 +380,7 @@ type foRun struct {
 	apiStopped bool
 
 	sharedCtx context.Context
+	ownCtx    map[int]context.Context
 	nestedOps []*FOOp
 
 	sideWrites []sideWrite // values another part of the application stored in the backend directly
@@ -920,6 +927,19 @@ func (r *foRun) doGet(ci, oi int, op *FOOp, shared []byte) []byte {
 		ctx = r.sharedCtx
 	}
 
+	own := op.OwnCtx && r.sc.OwnCtxTTLNs != 0 && ci < nestedClientBase && !(op.UseShared && r.sharedCtx != nil)
+	if own {
+		if r.ownCtx == nil {
+			r.ownCtx = map[int]context.Context{}
+		}
+
+		if r.ownCtx[ci] == nil {
+			r.ownCtx[ci] = cache.WithTTL(ctx, dur(r.sc.OwnCtxTTLNs), false)
+		}
+
+		ctx = r.ownCtx[ci]
+	}
+
 	var cancel context.CancelFunc
 
 	switch op.Cancel {
@@ -932,7 +952,7 @@ func (r *foRun) doGet(ci, oi int, op *FOOp, shared []byte) []byte {
 		ctx, cancel = context.WithTimeout(ctx, time.Millisecond)
 	}
 
-	if op.HasCtxTTL && !(op.UseShared && r.sharedCtx != nil) {
+	if op.HasCtxTTL && !(op.UseShared && r.sharedCtx != nil) && !own {
 		ctx = cache.WithTTL(ctx, dur(op.CtxTTLNs), false)
 	}
 
